@@ -261,7 +261,23 @@ def gen_function(w):
             "b": [round(w.uniform(-3000, 6000), 4) for _ in range(m + 1)], "array": w.random() < 0.5}
 
 
+def decay_points(w):
+    """Permeance of a component that vanishes towards the other pure component: steep exponential
+    decay in x, moderate temperature dependence, values well above 1 (other units of p)."""
+    A = wg.logu(w, 0.5, 40.0, 4)
+    k = w.uniform(3.0, 9.0)
+    temps = sorted({round(295.0 + 25.0 * j + w.uniform(0, 5), 1) for j in range(w.randint(2, 3))})
+    xs = sorted({round(w.uniform(0.05, 0.8), 2) for _ in range(w.randint(3, 6))})
+    pts = []
+    for j, t in enumerate(temps):
+        for x in xs:
+            pts.append([x, t, float("%.4g" % (A * (1 + 0.18 * j) * math.exp(-k * x) * (1 + w.uniform(-0.03, 0.03))))])
+    return pts
+
+
 def synth_points(w, npts=None, ntemps=None, endpoints=0.35):
+    if npts is None and w.random() < 0.15:
+        return decay_points(w)
     pts = _synth_points(w, npts, ntemps, endpoints)
     if w.random() < 0.12:
         k = w.choice([1e-9, 1e-7, 1e-4, 1e3])     # the same curve in other units of p (SI permeances are ~1e-9)
@@ -275,7 +291,8 @@ def _synth_points(w, npts=None, ntemps=None, endpoints=0.35):
     npts = npts or w.randint(3, 40)
     n, m = w.randint(0, 2), (w.randint(0, 1) if ntemps > 1 else 0)
     alpha = wg.logu(w, 1e-4, 1.0, 6)
-    a = [w.uniform(-3, 3) for _ in range(n)]
+    steep = w.random() < 0.2          # strong composition dependence: permeances span orders of magnitude
+    a = [w.uniform(-10, 10) if steep else w.uniform(-3, 3) for _ in range(n)]
     b = [w.uniform(1500, 4500)] + [w.uniform(-800, 800) for _ in range(m)]
     temps = sorted({round(303.15 + 12.0 * j + w.uniform(0, 6), 2) for j in range(ntemps)})
     if w.random() < 0.2:
@@ -630,6 +647,16 @@ def meas_info(M, k):
     return s.get("n_points", 10), s["n_curves"]
 
 
+def g_copy_object(o, M):
+    """The caller copies one of the shared objects (copy / deepcopy / pickle round trip) and keeps the copy."""
+    pool = o.choice(["conditions", "conditions", "compositions", "curves", "measurements", "functions", "membranes", "permeances"])
+    n = len(M.spec.get(pool, []))
+    if not n:
+        return None
+    return {"fn": "copy_object", "how": o.choice(["deepcopy", "deepcopy", "copy", "pickle"]), "keep": True,
+            "args": {"obj": ref(pool, o.randrange(n))}}
+
+
 def g_new_mixture(o, M):
     """A user constructs a Mixture of their own that carries the name of a built-in one (constructor call)."""
     bname = o.choice(sorted(wg.MIXTURES))
@@ -652,13 +679,24 @@ def g_pool_measurements(o, M):
     return {"fn": "pool_measurements", "args": {"sources": [ref("measurements", o.randrange(n)) for _ in range(k)]}}
 
 
+def _is_decay(M, k):
+    ms = M.spec["measurements"][k]
+    pts = ms.get("points")
+    if not pts or len(pts) < 4:
+        return False
+    lo = min(pts, key=lambda q: q[0])
+    hi = max(pts, key=lambda q: q[0])
+    return hi[2] > 0 and lo[2] / hi[2] > 8.0          # p falls by about an order of magnitude across x
+
+
 def g_fit(o, M, best=None, allow_none=True, max_n=3, max_m=3):
     k = o.randrange(len(M.spec["measurements"]))
     npts, ntemps = meas_info(M, k)
-    best = (o.random() < 0.4) if best is None else best
+    decay = _is_decay(M, k)
+    best = (o.random() < (0.7 if decay else 0.4)) if best is None else best
     a = {"data": ref("measurements", k)}
     if best:
-        hi_n, hi_m = (2, 1) if npts > 12 else (min(max_n, 3), min(max_m, 2))
+        hi_n, hi_m = (2, 1) if npts > 12 else ((min(max_n, 3), min(max_m, 2)) if o.random() < 0.7 else (1, min(max_m, 3)))
         if allow_none and npts <= 9 and o.random() < 0.3:
             pass
         else:
@@ -670,10 +708,12 @@ def g_fit(o, M, best=None, allow_none=True, max_n=3, max_m=3):
         else:
             a["n"] = o.randint(0, max_n if npts <= 60 else 1)
             a["m"] = o.randint(0, (max_m if npts <= 60 else 1) if ntemps > 1 else min(max_m, 1))
-    if o.random() < 0.35:
-        a["include_zero"] = True
+    if o.random() < (0.7 if decay else 0.35):
+        a["include_zero"] = True        # a vanishing component is exactly what the forced zero point is meant for
+    if decay and best and npts <= 18 and o.random() < 0.6:
+        a["n"], a["m"] = o.randint(0, 1), min(3, max(0, ntemps))
     r = o.random()
-    if r < 0.4:
+    if r < (0.7 if decay else 0.4):
         a["component_index"] = 1
     elif r < 0.45:
         a["component_index"] = o.choice([2, -1])      # invalid: must raise without touching anything
@@ -842,6 +882,9 @@ def execute(ctx, plan, stats=None, extra_oracles=None, prop="C20", names=None):
                 break
             # --- snapshot oracle
             st["snapshot_checks"] += 1
+            if rep.get("kept_changed"):
+                raise Violation(names["snapshot"], op, {"changed": rep["kept_changed"], "outcome": ho.split(":")[0],
+                                                        "note": "an object returned by an earlier call (and still held by the caller) was changed by this call"})
             if rep.get("snapshot_changed"):
                 raise Violation(names["snapshot"], op, {"changed": rep["snapshot_changed"], "outcome": ho.split(":")[0]})
             if rep.get("interpreter_state_changed"):
@@ -945,6 +988,14 @@ def witness_battery(plan):
         ops.append({"fn": "fit", "id": "battery", "args": {"data": ref("measurements", k), "n": 1, "m": 0}})
         if meas_info(M, k)[0] <= 12:       # default orders grow with sqrt(len(data)); keep the battery cheap
             ops.append({"fn": "fit", "id": "battery", "args": {"data": ref("measurements", k)}})
+    for mix in ("H2O_EtOH", "MeOH_DMC"):
+        ops.append({"fn": "make_curve", "id": "battery", "args": {
+            "mixture": {"$m": {"builtin": mix}}, "membrane_name": "battery", "feed_temperature": 333.15,
+            "feed_compositions": [{"$new_comp": [0.2, "weight"]}, {"$new_comp": [0.6, "weight"]}],
+            "partial_fluxes": [{"$tuple": [0.4, 0.02]}, {"$tuple": [0.9, 0.01]}]}})
+    loaded = [m["dir"] for m in spec.get("membranes", []) if not m.get("constructed")]
+    if loaded:
+        ops.append({"fn": "load_membrane", "id": "battery", "dir": loaded[0], "args": {}})
     if spec.get("vle"):
         ops.append({"fn": "fit_vle", "id": "battery", "args": {"data": ref("vle", 0), "method": "Powell"}})
     # evaluations that overflow (exp -> inf), underflow and produce 0*inf: outcomes depend on numpy's error state
